@@ -306,7 +306,7 @@ def run_cases(ck, progs):
 
 def run(ck: Check):
     ck.trusted = TRUST
-    ck.prove(extra_targets=["Corr/Check_td.v"])
+    ck.prove(extra_targets=["Corr/Check_td.v", "Td/TdExamples.v"])
     progs = list(FIXED)
     for i in range(ck.n(700, 25000)):
         progs.append(gen_prog(ck.rng("prog", i)))
